@@ -273,6 +273,48 @@ def _stmts_contain_return(stmts) -> bool:
     return False
 
 
+def _pure_local_stmts(stmts) -> bool:
+    """only bindings of plain names to pure values, possibly under pure tests"""
+    for st in stmts:
+        if isinstance(st, ast.Assign):
+            if not all(isinstance(t, ast.Name) or (isinstance(t, ast.Tuple) and all(isinstance(e, ast.Name) for e in t.elts)) for t in st.targets) or not is_pure(st.value):
+                return False
+        elif isinstance(st, ast.AugAssign):
+            if not isinstance(st.target, ast.Name) or not is_pure(st.value):
+                return False
+        elif isinstance(st, ast.If):
+            if not is_pure(st.test) or not _pure_local_stmts(st.body) or not _pure_local_stmts(st.orelse):
+                return False
+        elif isinstance(st, ast.Pass):
+            continue
+        else:
+            return False
+    return True
+
+
+def _loop_gen_shape(f):
+    """(pre, loop, index of the yield in loop.body) for a generator `pre*; for v in IT: A*; yield E; B*` whose own statements
+    only bind its local names to pure values: consuming it in a for loop (directly or through zip) is the same as running the
+    loop over IT with A*, the consumer's body and B* in sequence"""
+    body = [x for x in f.body if not (isinstance(x, ast.Expr) and isinstance(x.value, ast.Constant))]
+    if not body or not isinstance(body[-1], ast.For) or body[-1].orelse:
+        return None
+    pre, loop = body[:-1], body[-1]
+    ys = [n for n in ast.walk(f) if isinstance(n, (ast.Yield, ast.YieldFrom))]
+    if len(ys) != 1 or not isinstance(ys[0], ast.Yield) or ys[0].value is None:
+        return None
+    idx = [i for i, st in enumerate(loop.body) if isinstance(st, ast.Expr) and st.value is ys[0]]
+    if len(idx) != 1:
+        return None
+    if any(isinstance(n, (ast.Return, ast.Break, ast.Continue)) for n in ast.walk(f)):
+        return None
+    if not _pure_local_stmts(pre) or not _pure_local_stmts(loop.body[:idx[0]]) or not _pure_local_stmts(loop.body[idx[0] + 1:]):
+        return None
+    if not is_pure(ys[0].value) or not isinstance(loop.target, (ast.Name, ast.Tuple)):
+        return None
+    return pre, loop, idx[0]
+
+
 class _Bail(Exception):
     pass
 
@@ -680,6 +722,8 @@ class Normaliser:
             while isinstance(inner, ast.If) and not inner.orelse and len(inner.body) == 1:
                 inner = inner.body[0]
             simple_gen = isinstance(inner, ast.Expr) and isinstance(inner.value, ast.Yield)
+        if not simple_gen and _loop_gen_shape(f) is not None:
+            simple_gen = True
         for n in ast.walk(f):
             if isinstance(n, (ast.Yield, ast.YieldFrom)) and simple_gen:
                 continue
@@ -895,6 +939,10 @@ class Normaliser:
                 if binds == 1:
                     fctx['closures'][s.name] = s
             return [s]
+        if isinstance(s, ast.For) and not s.orelse:
+            fused = self._fuse_generator(s, fctx)
+            if fused is not None:
+                return self._block(fused, fctx)
         # expression-level inlining everywhere in the statement's own expressions
         before = len(self.log)
         self._expr_inline(s, fctx)
@@ -1102,8 +1150,10 @@ class Normaliser:
             elif isinstance(value, list):
                 setattr(stmt, field, [T().visit(v) if isinstance(v, ast.AST) else v for v in value])
 
-    def _expand(self, call, helper, receiver, fctx):
+    def _expand(self, call, helper, receiver, fctx, generator=False):
         func = helper.func
+        if not generator and any(isinstance(n, (ast.Yield, ast.YieldFrom)) for n in walk_scope(func)):
+            return None         # a generator is not a sequence of statements of its caller (see _fuse_generator)
         bound = self._bind(call, func, helper.kind == 'method')
         if bound is None:
             return None
@@ -1169,6 +1219,76 @@ class Normaliser:
         self.log.append(f'N2 {fctx["path"]}::{fctx["qual"]}: call to new helper {helper.qual} inlined ({len(flat)} statement(s))')
         ret = ast.copy_location(ast.Name(id=retname, ctx=ast.Load()), call) if retname else None
         return temps + flat, ret
+
+    def _fuse_generator(self, loop, fctx):
+        """for T in zip(a, G(args), b): BODY   with G a new loop generator   ->   G's loop over its own iterable zipped with a, b,
+        with `T_k = <yielded value>; BODY` in place of the yield"""
+        it = loop.iter
+        if isinstance(it, ast.Call) and isinstance(it.func, ast.Name) and it.func.id == 'zip' and not it.keywords \
+                and not any(isinstance(a, ast.Starred) for a in it.args):
+            if not isinstance(loop.target, ast.Tuple) or len(loop.target.elts) != len(it.args) or any(isinstance(e, ast.Starred) for e in loop.target.elts):
+                return None
+            slots = list(it.args)
+            targets = list(loop.target.elts)
+        else:
+            slots, targets = [it], [loop.target]
+        for k, c in enumerate(slots):
+            if not isinstance(c, ast.Call):
+                continue
+            r = self._resolve(c, fctx)
+            if r is None:
+                continue
+            helper, receiver = r
+            shape = _loop_gen_shape(helper.func)
+            if shape is None:
+                continue
+            pre, gloop, yi = shape
+            post = gloop.body[yi + 1:]
+            if post:
+                # `continue` in the consumer would skip the generator's statements after the yield
+                def has_continue(stmts):
+                    for st in stmts:
+                        if isinstance(st, ast.Continue):
+                            return True
+                        if isinstance(st, (ast.For, ast.While, ast.FunctionDef)):
+                            continue
+                        for name in ('body', 'orelse', 'finalbody'):
+                            if has_continue(getattr(st, name, None) or []):
+                                return True
+                        if isinstance(st, ast.Try) and any(has_continue(h.body) for h in st.handlers):
+                            return True
+                    return False
+                if has_continue(loop.body):
+                    continue
+            if not all(isinstance(a, (ast.Name, ast.Constant)) or is_pure(a) for a in c.args) or not all(is_pure(kw.value) for kw in c.keywords):
+                continue
+            exp = self._expand(c, helper, receiver, fctx, generator=True)
+            if exp is None:
+                continue
+            stmts, _ = exp
+            gl = [st for st in stmts if isinstance(st, ast.For) and any(isinstance(n, ast.Yield) for n in ast.walk(st))]
+            if len(gl) != 1:
+                continue
+            gl = gl[0]
+            yi2 = [i for i, st in enumerate(gl.body) if isinstance(st, ast.Expr) and isinstance(st.value, ast.Yield)]
+            if len(yi2) != 1:
+                continue
+            y = gl.body[yi2[0]]
+            bind = ast.copy_location(ast.Assign(targets=[targets[k]], value=y.value.value, lineno=loop.lineno), loop)
+            sp_ = _split_tuple_assign(bind) or [bind]
+            gl.body = gl.body[:yi2[0]] + sp_ + list(loop.body) + gl.body[yi2[0] + 1:]
+            if len(slots) > 1:
+                new_t = targets[:k] + [gl.target] + targets[k + 1:]
+                new_i = slots[:k] + [gl.iter] + slots[k + 1:]
+                gl.target = ast.copy_location(ast.Tuple(elts=new_t, ctx=ast.Store()), loop.target)
+                gl.iter = ast.copy_location(ast.Call(func=it.func, args=new_i, keywords=[]), it)
+            for n in ast.walk(gl.target):
+                if isinstance(n, (ast.Name, ast.Tuple, ast.List, ast.Attribute, ast.Subscript)) and hasattr(n, 'ctx') and not isinstance(n, ast.Subscript):
+                    n.ctx = ast.Store()
+            gl.lineno = loop.lineno
+            self.log.append(f'N7 {fctx["path"]}::{fctx["qual"]}: loop over new generator {helper.qual} fused with its consumer')
+            return stmts
+        return None
 
     @staticmethod
     def _fold_attr_strings(func):
